@@ -308,3 +308,63 @@ def callback_registered_after_state_init(run, F):
                         run.violation(f['qname'], 'write-after-registration:' + last_field(e['lhs']), '%s:%s' % (f['file'], G.line(x)),
                                       '%s is assigned after the stop callback %s was registered; the callback (which also writes it) may already have run inline because stop was requested before start(), and this assignment then undoes its effect' % (e['lhs'], M))
     if n == 0: raise Broken('no operation found whose stop callback writes operation members')
+
+
+# ------------------------------------------------------------------------------------------ small component rules
+@rule('R-AMRE-LOOP', ['C16', 'C08', 'C09'], floor=1)
+def amre_start_or_wait(run, F):
+    """v1 async_manual_reset_event::start_or_wait: the "already signalled?" test is re-evaluated on every iteration of the CAS retry loop (a set() that lands between the load and the CAS makes the CAS fail and reload the signalled state; pushing the waiter on top of it would strand it — scope joins wait on this event)"""
+    f = fn(F, 'unifex::_amre::async_manual_reset_event::start_or_wait')
+    G = Graph(f)
+    cas = [n for n, e in G.ev.items() if e.get('k') == 'call' and e['callee'].get('name') in ('compare_exchange_weak', 'compare_exchange_strong')]
+    tests = [t for t, e in G.ev.items() if e.get('k') == 'term' and e.get('cond') is not None and any('signalledState' in p or p == '#null' for p in expr_paths(e['cond'])) and e['cond'].get('op') == 'bin']
+    tests = [t for t in tests if any(last_field(p) in ('top', 'oldState', 'state') or p == 'top' for p in expr_paths(G.ev[t]['cond']))]
+    if not cas or not tests: raise Broken('start_or_wait: CAS loop or signalled test not found')
+    run.inst(site(f), 'signalled test inside the CAS retry loop', key='amre-loop')
+    for c in cas:
+        # from the CAS a retry path must lead back to the CAS through the signalled test
+        back = G.reach([m for m, _ in G.succ.get(c, [])])
+        if c not in back:
+            run.violation(f['qname'], 'cas-not-in-loop', '%s:%s' % (f['file'], G.line(c)), 'the CAS pushing the waiter is not retried'); continue
+        if c in G.reach([m for m, _ in G.succ.get(c, [])], blocked=set(tests)):
+            run.violation(f['qname'], 'signalled-test-hoisted', '%s:%s' % (f['file'], G.line(c)),
+                          'the CAS retry loop can go round without re-testing whether the event has become signalled: a set() racing with the push leaves the waiter queued on a signalled event, and it is never resumed')
+
+
+@rule('R-FUSED-DEREG', ['C03', 'C04'], floor=2)
+def fused_deregister(run, F):
+    """fused_stop_source::deregister_callbacks() and the token adapters' unsubscribe() destroy their upstream callbacks unconditionally (on every path): once deregistration has returned no upstream stop request may reach the source any more, whatever its own stop state"""
+    rows = [('unifex::_fss::fused_stop_source::deregister_callbacks', {'reset', 'destruct'}, 'callbacks_'),
+            ('unifex::inplace_stop_token_adapter::unsubscribe', {'destruct', 'reset'}, 'callback_')]
+    for q, names, member in rows:
+        f = fn(F, q); G = Graph(f)
+        posts = {n for n, e in G.ev.items() if e.get('k') == 'call' and e['callee'].get('name') in names and last_field(e['callee'].get('base', '')) == member}
+        run.inst(site(f), '%s destroyed on every path' % member, key=q)
+        if not posts or not G.must_reach_before_exit(G.entry, posts) and G.entry not in posts:
+            run.violation(q, 'conditional-deregistration', '%s:%s' % (f['file'], f['line']),
+                          '%s does not destroy %s on every path: after it returns an upstream callback can still be registered and run (a stop request reaching a source whose user already deregistered)' % (q.replace('unifex::', ''), member))
+
+
+@rule('R-QUEUE-POP', ['C06', 'C01'], floor=2)
+def queue_pop_advances(run, F):
+    """run loops that pop the head of a singly linked intrusive queue advance the head to the popped item's successor (`head_ = item->next_`): assigning anything else drops every item queued behind it (trampoline drain, manual_event_loop run)"""
+    rows = [('unifex::_trampoline::scheduler::trampoline_state::drain', 'head_', 'next_'),
+            ('unifex::_manual_event_loop::context::run', 'head_', 'next_')]
+    for q, head, nxt in rows:
+        f = fn(F, q); G = Graph(f)
+        ws = [(n, e) for n, e in G.ev.items() if e.get('k') == 'assign' and e['lhs'] == 'this.' + head]
+        if not ws: raise Broken('%s no longer assigns %s' % (q, head))
+        for n, e in ws:
+            run.inst(site(f, G.line(n)), '%s advanced to the popped item\'s %s' % (head, nxt), key=(q, G.line(n)))
+            ps = expr_paths(e.get('rhs'))
+            if not (len(ps) == 1 and last_field(ps[0]) == nxt and (e.get('rhs') or {}).get('op') == 'path'):
+                run.violation(q, 'pop-does-not-advance', '%s:%s' % (f['file'], G.line(n)),
+                              'after popping, %s is set to %s instead of the popped item\'s %s: items queued behind the popped one are unlinked and never run' % (head, ps or 'a non-path value', nxt))
+        # a pop through std::exchange(head_, X)
+        for n, e in G.ev.items():
+            if e.get('k') == 'call' and e['callee'].get('name') == 'exchange' and e.get('args') and last_field(e['args'][0].get('p', '')) == head:
+                a1 = e['args'][1] if len(e['args']) > 1 else {}
+                run.inst(site(f, G.line(n)), 'exchange of %s' % head, key=(q, 'xchg', G.line(n)))
+                if not (a1.get('op') == 'path' and last_field(a1.get('p', '')) == nxt):
+                    run.violation(q, 'pop-does-not-advance', '%s:%s' % (f['file'], G.line(n)),
+                                  '%s is exchanged with %s instead of the popped item\'s %s: the rest of the queue is dropped' % (head, a1.get('p'), nxt))
